@@ -43,7 +43,8 @@ impl Problem {
     pub fn base_dim(&self) -> usize {
         match self.kind.as_str() {
             "sho" | "vdp" | "vdpe" | "lin2" => 2,
-            "robertson" | "lin3" => 3,
+            "robertson" | "lin3" | "dae3a" | "dae3b" => 3,
+            "dae3red" => 2,
             "chain4" | "cascade4" => 4,
             "empty" => 0,
             _ => 1,
@@ -67,6 +68,10 @@ impl Problem {
             "vdpe" => vec![2.0, -0.66],
             "lin2" => vec![1.0, 0.5],
             "lin3" => vec![1.0, -0.5, 0.25],
+            // index-1 DAE 0 = a - u v, u' = -2u + a, v' = -v + sin t, consistent initial values (algebraic equation first / last)
+            "dae3a" => vec![0.5, 1.0, 0.5],
+            "dae3b" => vec![1.0, 0.5, 0.5],
+            "dae3red" => vec![1.0, 0.5],
             "chain4" | "cascade4" => vec![1.0, 0.0, 0.0, 0.0],
             "empty" => vec![],
             _ => vec![1.0],
@@ -131,6 +136,20 @@ impl Problem {
                     let right = if i < 3 { y[i + 1] } else { 0.0 };
                     d[i] = -(1.0 + 0.5 * i as f64) * y[i] + p * left - 0.5 * right + if i == 0 { (0.3 * t).cos() } else { 0.0 };
                 }
+            }
+            "dae3a" => {
+                d[0] = y[0] - y[1] * y[2];
+                d[1] = -2.0 * y[1] + y[0];
+                d[2] = -y[2] + t.sin();
+            }
+            "dae3b" => {
+                d[0] = -2.0 * y[0] + y[2];
+                d[1] = -y[1] + t.sin();
+                d[2] = y[2] - y[0] * y[1];
+            }
+            "dae3red" => {
+                d[0] = -2.0 * y[0] + y[0] * y[1];
+                d[1] = -y[1] + t.sin();
             }
             "lin3" => {
                 d[0] = -y[0] + 0.5 * y[1];
@@ -203,6 +222,20 @@ impl Problem {
                     if r < 3 { j[r * 4 + r + 1] = -0.5; }
                 }
             }
+            "dae3a" => {
+                j[0] = 1.0; j[1] = -y[2]; j[2] = -y[1];
+                j[3] = 1.0; j[4] = -2.0; j[5] = 0.0;
+                j[6] = 0.0; j[7] = 0.0; j[8] = -1.0;
+            }
+            "dae3b" => {
+                j[0] = -2.0; j[1] = 0.0; j[2] = 1.0;
+                j[3] = 0.0; j[4] = -1.0; j[5] = 0.0;
+                j[6] = -y[1]; j[7] = -y[0]; j[8] = 1.0;
+            }
+            "dae3red" => {
+                j[0] = -2.0 + y[1]; j[1] = y[0];
+                j[2] = 0.0; j[3] = -1.0;
+            }
             "lin3" => {
                 j[0] = -1.0;
                 j[1] = 0.5;
@@ -260,11 +293,28 @@ impl Problem {
         }
     }
 
+    /// index-1 DAE problems: residual of the algebraic constraint at a state, and the (u, v) components
+    pub fn constraint(&self, y: &[f64]) -> Option<f64> {
+        match self.kind.as_str() {
+            "dae3a" => Some(y[0] - y[1] * y[2]),
+            "dae3b" => Some(y[2] - y[0] * y[1]),
+            _ => None,
+        }
+    }
+    pub fn dae_uv(&self, y: &[f64]) -> Option<(f64, f64)> {
+        match self.kind.as_str() {
+            "dae3a" => Some((y[1], y[2])),
+            "dae3b" => Some((y[0], y[1])),
+            _ => None,
+        }
+    }
+
     /// half bandwidth of the Jacobian of the composed problem
     pub fn bandwidth(&self) -> usize {
         match self.kind.as_str() {
             "empty" => 0,
             "lin3" | "chain4" | "cascade4" => 1,
+            "dae3a" | "dae3b" => 2,
             _ => self.base_dim() - 1,
         }
     }
